@@ -90,7 +90,21 @@ def run(ck):
         inv = rej.get("invariant")
         # attribution: an invariant failure is C21 (SegmentsLinked) / C19 (SetsInv); a failing op whose
         # projection changed is C20; everything else is a C19 model mismatch
-        if inv == "SegmentsLinked":
+        linked = True
+        if ev.get("name") == "insert":
+            # is the batch hash-linked?  (descriptors are in the run's "hdr" events)
+            desc = {}
+            for ln in run_lines:
+                if '"name":"hdr"' in ln:
+                    d = json.loads(ln)["d"]
+                    desc[d["id"]] = d
+            b = [desc.get(i) for i in ev.get("b", [])]
+            for x, y in zip(b, b[1:]):
+                if not (x and y and y["h"] == x["h"] + 1 and y["cid"] == x["cid"] and y["t"] > x["t"]
+                        and y["vs"] == x["nvs"] and y["parent"] == x["tag"]):
+                    linked = False
+        if inv == "SegmentsLinked" or (ev.get("name") == "insert" and ev.get("res") == 1 and not linked):
+            # a batch that is not hash-linked was accepted: the store now holds unlinked neighbours
             owner = "C21"
         elif failing:
             owner = "C20"
@@ -98,7 +112,7 @@ def run(ck):
             owner = "C19"
         cls = {"kind": "trace-reject", "backend": backend, "op": ev.get("name"), "res": RES.get(ev.get("res")),
                "invariant": inv}
-        if owner == ck.prop or (ck.prop == "C19" and owner == "C20"):
+        if owner == ck.prop or (ck.prop == "C19" and owner in ("C20", "C21")):
             ck.violation(cls, f"event {idx} of a {backend} history is not a behaviour of Store.tla: "
                               f"{json.dumps(ev)[:400]}", {"trace": run_lines[:idx], "reject": rej})
 
